@@ -274,7 +274,48 @@ def gen_chains(rng, consts, n):
         c, m = gen_chain_case(rng, consts, pool, k, "g%d" % k)
         cases.append(c)
         metas.append(m)
+    for k in range(max(10, n // 3)):
+        c, m = gen_hist_case(rng, consts, pool, k, "h%d" % k)
+        cases.append(c)
+        metas.append(m)
     return cases, metas
+
+
+def gen_hist_case(rng, consts, pool, k, cid):
+    """histories along one line of descent: call - fork - call with the same argument (the verdict of a child must not be its
+    parent's), several arguments in one process, the caller itself listed (no fork), and - in a fresh pid namespace - chosen
+    pids of 6/7 digits with 14/15-byte names (the head of the stat line at its longest)."""
+    sub = [x for x in (rng.choice(pool) for _ in range(4)) if x and b"," not in x] or [b"cron"]
+    a = rng.choice(sub)[:15]
+    other = rng.choice([x for x in pool if x[:15] != a and x and b"," not in x])[:15]
+    ns = k % 5 in (1, 3)
+    steps = []
+    kind = k % 5
+    listed = b",".join([b"zz", b"", a, b"qq", a])
+    if kind in (0, 2, 4):
+        steps += ["n:" + hexs(a), "c:" + hexs(listed), "f"]
+        if kind == 2:
+            steps += ["n:" + hexs(other), "c:" + hexs(listed), "c:" + hexs(other), "f", "c:" + hexs(other), "c:" + hexs(listed)]
+        elif kind == 4:
+            steps += ["c:" + hexs(b"nomatch," + other), "c:" + hexs(listed), "n:" + hexs(other), "f", "c:" + hexs(b"nomatch," + other), "c:" + hexs(listed)]
+        else:
+            steps += ["c:" + hexs(listed)]
+    else:
+        long = bytes(rng.choice(b"abcdefgh ()") for _ in range(rng.choice([13, 14, 15])))
+        used = set()
+
+        def pid():
+            while True:
+                p = rng.choice([rng.randrange(1000000, 4194304), rng.randrange(100000, 1000000), 4194303, 1000000, 999999, 1234567])
+                if p not in used:
+                    used.add(p)
+                    return p
+        steps += ["n:" + hexs(b"ns-init"), "F:%d" % pid(), "n:" + hexs(a)]
+        for _ in range(rng.choice([1, 2, 3])):
+            steps += ["F:%d" % pid(), "n:" + hexs(long if rng.random() < 0.8 else other)]
+        steps += ["F:%d" % pid() if rng.random() < 0.7 else "f", "n:" + hexs(b"caller"), "c:" + hexs(listed), "c:" + hexs(long), "c:" + hexs(b"nomatch"), "c:" + hexs(b"caller")]
+    line = "\t".join(["hist", cid, "ns" if ns else "plain", ";".join(steps)])
+    return line, {"depth": sum(1 for x in steps if x[0] in "fF"), "mode": "hist-ns" if ns else "hist", "nargs": sum(1 for x in steps if x.startswith("c:")), "empty_name": False}
 
 
 def run_chains(run, exe, cases, stream):
@@ -304,35 +345,50 @@ def run_chains(run, exe, cases, stream):
         if io[i] == "ok\tskip":
             r["skipped"] = True
             continue
-        s = sides.get(cf[1])
-        if not s:
-            raise CheckError("chain driver: no side record for case %s" % cf[1])
-        _, selfp, ppid, tree, truth, effargs = s
-        verd = io[i].split("\t")[1].split(",")
-        args = effargs.split(";")
-        if len(verd) != len(args):
-            raise CheckError("chain driver: %d verdicts for %d arguments" % (len(verd), len(args)))
-        r["verdicts"], r["args"], r["ppid"], r["self"], r["truth"], r["tree"] = verd, args, ppid, selfp, truth, tree
-        atab = ";".join("%s:%s:%s" % (e.split(":")[0], e.split(":")[1], e.split(":")[3]) for e in truth.split(";")) if truth != "[]" else "[]"
-        tmap = dict(e.split("=", 1) for e in tree.split(";")) if tree != "[]" else {}
-        for j, a in enumerate(args):
-            mlines.append("\t".join(["filter", a, selfp, ppid, tree, "?"])); owners.append((i, "model", j))
-            if verd[j] in ("drop", "pass"):
-                mlines.append("\t".join(["spec", a, ppid, atab, verd[j]])); owners.append((i, "spec", j))
-            else:
-                r["fault"] = "verdict:" + verd[j]
-        if truth != "[]":
-            for e in truth.split(";"):
-                pid, commh, sth, pp = e.split(":")
-                content = tmap.get(pid)
-                if content is None:
-                    continue
-                comm = unhex(commh)
-                raw = unhex(content)
-                pos = len(pid) + 2 + len(comm) + 2
-                stb = raw[pos:pos + 1]
-                mlines.append("\t".join(["render", pid, commh, hexs(stb) if stb else "-", pp, content])); owners.append((i, "render", e))
-                mlines.append("\t".join(["parse", content])); owners.append((i, "parse", (commh, pp, pid)))
+        verd_all = io[i].split("\t")[1].split(",") if io[i].split("\t")[1] != "-" else []
+        if cf[0] == "hist":
+            ncalls = sum(1 for st in cf[3].split(";") if st.startswith("c:"))
+            keys = ["%s#%d" % (cf[1], k) for k in range(ncalls)]
+        else:
+            keys = [cf[1]]
+        r["verdicts"], r["args"], truths = [], [], []
+        vpos = 0
+        for key in keys:
+            s = sides.get(key)
+            if not s:
+                raise CheckError("chain driver: no side record for case %s" % key)
+            _, selfp, ppid, tree, truth, effargs = s
+            args = effargs.split(";")
+            verd = verd_all[vpos:vpos + len(args)]
+            vpos += len(args)
+            if len(verd) != len(args):
+                raise CheckError("chain driver: %d verdicts for %d arguments" % (len(verd), len(args)))
+            base = len(r["args"])
+            r["verdicts"] += verd
+            r["args"] += args
+            truths.append(truth)
+            r["ppid"], r["self"], r["tree"] = ppid, selfp, tree
+            atab = ";".join("%s:%s:%s" % (e.split(":")[0], e.split(":")[1], e.split(":")[3]) for e in truth.split(";")) if truth != "[]" else "[]"
+            tmap = dict(e.split("=", 1) for e in tree.split(";")) if tree != "[]" else {}
+            for j, a in enumerate(args):
+                mlines.append("\t".join(["filter", a, selfp, ppid, tree, "?"])); owners.append((i, "model", (base + j, truth)))
+                if verd[j] in ("drop", "pass"):
+                    mlines.append("\t".join(["spec", a, ppid, atab, verd[j]])); owners.append((i, "spec", base + j))
+                else:
+                    r["fault"] = "verdict:" + verd[j]
+            if truth != "[]":
+                for e in truth.split(";"):
+                    pid, commh, sth, pp = e.split(":")
+                    content = tmap.get(pid)
+                    if content is None:
+                        continue
+                    comm = unhex(commh)
+                    raw = unhex(content)
+                    pos = len(pid) + 2 + len(comm) + 2
+                    stb = raw[pos:pos + 1]
+                    mlines.append("\t".join(["render", pid, commh, hexs(stb) if stb else "-", pp, content])); owners.append((i, "render", e))
+                    mlines.append("\t".join(["parse", content])); owners.append((i, "parse", (commh, pp, pid)))
+        r["truth"] = " || ".join(truths)
     mp = os.path.join(d, "model.txt")
     open(mp, "w").write("".join(l + "\n" for l in mlines))
     mo = run.run_model(AREA, mp, os.path.join(d, "model.out"))
@@ -344,7 +400,7 @@ def run_chains(run, exe, cases, stream):
         r = out[i]
         if kind == "model":
             mv = res.split("\t")[1] if res.startswith("ok\t") else res
-            r["items"].append({"arg": r["args"][x], "impl": r["verdicts"][x], "model": mv, "spec": None})
+            r["items"].append({"arg": r["args"][x[0]], "impl": r["verdicts"][x[0]], "model": mv, "spec": None, "truth": x[1], "k": x[0]})
         elif kind == "spec":
             r["items"][-1]["spec"] = res
         elif kind == "render" and res != "ok":
@@ -373,10 +429,15 @@ def classify_chains(run, results, stream):
         for it in r["items"]:
             if it["spec"] == "bad":
                 label = "dropped-without-listed-ancestor" if it["impl"] == "drop" else "passed-with-listed-ancestor"
-                one = "\t".join(cf[:5] + [it["arg"] if cf[2] != "orphan" else cf[5]])
+                if cf[0] == "hist":
+                    one = c
+                    what = "history %s (mode %s), call #%d" % (cf[3], cf[2], it["k"])
+                else:
+                    one = "\t".join(cf[:5] + [it["arg"] if cf[2] != "orphan" else cf[5]])
+                    what = "real chain (names top..bottom %s, caller %s, mode %s)" % (cf[3], cf[4], cf[2])
                 run.violation("spec:%s" % label, "spec_violation",
-                              "real chain (names top..bottom %s, caller %s, mode %s), argument %s: the filter answered %s; process table read from /proc/<pid>/comm+status: %s"
-                              % (cf[3], cf[4], cf[2], it["arg"], it["impl"], r["truth"][:600]),
+                              "%s, argument %s: the filter answered %s; process table read from /proc/<pid>/comm+status at that call: %s"
+                              % (what, it["arg"], it["impl"], it["truth"][:600]),
                               {"stream": stream, "failing_input": one, "impl_output": it["impl"], "model_output": it["model"], "cases": [one]})
                 nv += 1
                 break
@@ -394,7 +455,7 @@ def corpus_cases():
             for line in open(os.path.join(d, f)):
                 line = line.rstrip("\n")
                 if line and not line.startswith("#"):
-                    (chains if line.startswith("chain\t") else synth).append(line)
+                    (chains if line.startswith(("chain\t", "hist\t")) else synth).append(line)
     return synth, chains
 
 
@@ -408,12 +469,47 @@ def build_impl(run):
     return exe, exe2
 
 
-def classify_synth(run, res, cases, stream):
+def impl_only(run, exe, cases, tag):
+    d = os.path.join(run.scratch, "re-" + tag)
+    os.makedirs(d, exist_ok=True)
+    cp = os.path.join(d, "cases.txt")
+    open(cp, "w").write("".join(c + "\n" for c in cases))
+    return run.run_impl(exe, cp, os.path.join(d, "impl.out"))
+
+
+def history_of(run, exe, cases, i, impl):
+    """The function-level stream runs its cases one after the other in ONE process.  When the answer to case i is not the answer
+    the same case gets in a fresh process, the implementation keeps state between calls: find an earlier case that, run just before
+    it, reproduces the answer, so that the replay is the (two-call) history."""
+    if exe is None:
+        return [], impl
+    alone = impl_only(run, exe, [cases[i]], "alone")[0]
+    if alone == impl:
+        return [], alone
+    arg = cases[i].split("\t")[1]
+    prev = [j for j in range(i - 1, max(-1, i - 400), -1)]
+    prev.sort(key=lambda j: (cases[j].split("\t")[1] != arg, i - j))
+    for n, j in enumerate(prev[:60]):
+        if impl_only(run, exe, [cases[j], cases[i]], "pair")[1] == impl:
+            return [cases[j]], alone
+    return cases[max(0, i - 400):i], alone
+
+
+def classify_synth(run, res, cases, stream, exe=None):
     nv = 0
-    for (i, c, impl, sp) in res["spec_bad"]:
+    for n, (i, c, impl, sp) in enumerate(res["spec_bad"]):
         v = impl.split("\t")[1] if "\t" in impl else "?"
         label = "dropped-without-listed-ancestor" if v == "drop" else "passed-with-listed-ancestor"
         f = c.split("\t")
+        hist, alone = history_of(run, exe, cases, i, impl) if n < 3 else ([], impl)
+        if hist:
+            run.violation("spec:verdict-depends-on-earlier-call", "spec_violation",
+                          "synthetic /proc, %d call(s) in one process: the last call (argument %s, parent %s, process table %s) answered %s, in a fresh process the same call answers %s; "
+                          "the verdict of a call must depend on the process tree at that call only"
+                          % (len(hist) + 1, f[1], f[3], f[5][:400], v, alone.replace("\t", " ")),
+                          {"stream": stream, "failing_input": c, "history": len(hist), "impl_output": impl, "model_output": res["model"][i], "cases": hist + [c]})
+            nv += 1
+            continue
         run.violation("spec:%s" % label, "spec_violation",
                       "synthetic /proc: argument %s, parent %s, process table %s: the filter answered %s (files opened: %s), model: %s"
                       % (f[1], f[3], f[5][:500], v, impl.split("\t")[2] if impl.count("\t") >= 2 else "?", res["model"][i]),
@@ -437,7 +533,7 @@ def check(run):
     cases, meta, ncyclic = drop_cyclic(run, cases, meta)
     allcases = csynth + cases
     res = corr_stream(run, AREA, exe, allcases, spec_line=spec_line, stream="synthetic")
-    nv = classify_synth(run, res, allcases, "synthetic")
+    nv = classify_synth(run, res, allcases, "synthetic", exe)
     chains, cmeta = gen_chains(run.rng, consts, 60 if quick else 3000)
     allchains = cchain + chains
     cres = run_chains(run, exe_chain, allchains, "chains")
@@ -470,7 +566,8 @@ def check(run):
     distinct = len(set(c for c, m in zip(cases, meta) if m["nontrivial"])) + len(set((r["case"].split("\t", 2)[2], it["arg"]) for r in cres for it in r["items"]))
     depth_hist = {}
     for m in cmeta:
-        depth_hist[str(m["depth"])] = depth_hist.get(str(m["depth"]), 0) + 1
+        if not m["mode"].startswith("hist"):
+            depth_hist[str(m["depth"])] = depth_hist.get(str(m["depth"]), 0) + 1
     run.coverage.update({
         "evaluations": len(allcases) + pairs, "distinct_nontrivial": distinct,
         "rule": "synthetic: generated process tables of depth 0..12(+init/kthreadd) in the kernel's stat format with names from a pool of awkward names "
@@ -482,7 +579,8 @@ def check(run):
         "distribution": {"synthetic_cases": len(allcases), "synthetic_drops": sdrops, "synthetic_error_injected": sum(1 for m in meta if m["err"]),
                          "synthetic_wild": sum(1 for m in meta if m["wild"]), "synthetic_cyclic_tables_left_out": ncyclic, "synthetic_empty_comm": sum(1 for m in meta if m["empty_comm"]),
                          "chains": len(allchains), "chain_depths": depth_hist, "chain_argument_pairs": pairs, "chain_drops": drops,
-                         "orphan_chains": sum(1 for m in cmeta if m["mode"] == "orphan"), "chains_skipped": sum(1 for r in cres if r.get("skipped")), "chains_with_empty_name": sum(1 for m in cmeta if m["empty_name"]),
+                         "orphan_chains": sum(1 for m in cmeta if m["mode"] == "orphan"), "histories_call_fork_call": sum(1 for m in cmeta if m["mode"] == "hist"),
+                         "histories_in_pid_namespace_with_chosen_pids": sum(1 for m in cmeta if m["mode"] == "hist-ns"), "chains_skipped": sum(1 for r in cres if r.get("skipped")), "chains_with_empty_name": sum(1 for m in cmeta if m["empty_name"]),
                          "kernel_stat_entries_checked_against_render_stat": sum(1 for r in cres if "truth" in r for _ in r["truth"].split(";")),
                          "parse_vs_comm_status_disagreements": len(parse_bad), "kernel": kver,
                          "corpus_cases": len(csynth) + len(cchain), "mismatches": len(res["mismatch"]) + len(cmism),
@@ -505,8 +603,8 @@ def replay(run, path):
     tr_spawns(run)
     exe, exe_chain = build_impl(run)
     cases = rep.get("cases") or []
-    synth = [c for c in cases if not c.startswith("chain\t")]
-    chains = [c for c in cases if c.startswith("chain\t")]
+    synth = [c for c in cases if not c.startswith(("chain\t", "hist\t"))]
+    chains = [c for c in cases if c.startswith(("chain\t", "hist\t"))]
     nv = 0
     if synth:
         res = corr_stream(run, AREA, exe, synth, spec_line=spec_line, stream="replay")
